@@ -18,7 +18,11 @@ On top of the shared engine (pv/panic.py) this rule
     fixed array under a dominating `len == N`, `a - b` on references under a dominating `a >= b` — see local_idiom;
   * discharges the four minicbor-derive patterns by (derive macro, kind, signature) before the CFG guard search (which is
     slow on the generated bodies);
-  * supplies the `py:` guards referenced from tables/panic_C33.json.
+  * supplies the `py:` guards referenced from tables/panic_C33.json;
+  * restricts class-hierarchy expansion of an unresolved `<S as Trait>::m` call to impls whose Self type has S's head
+    constructor (refined_closure), indexes by `iter().position(..)` results (_position_index_idiom), and lets a reviewed
+    table entry of F cover the same construct inside a closure of F (closure_sites_by_root_entry) - three refinements that
+    keep behaviour-preserving refactorings (generic helpers, loop <-> iterator chains) silent.
 """
 import re
 
@@ -282,6 +286,99 @@ def _len_terms(sym, depth=2):
     return None
 
 
+_WRAP_RX = re.compile(r"::(branch|ok_or|ok_or_else|unwrap|expect)$")
+_POS_RX = re.compile(r"^<core::slice::iter::Iter(Mut)?<.*> as core::iter::traits::iterator::Iterator>::r?position$")
+_PAYLOAD_COMBINATORS = re.compile(r"^core::(option::Option|result::Result)::(map|and_then|is_some_and|is_none_or|is_ok_and|map_or|map_or_else|filter|inspect)$")
+
+
+def _position_source(sym, payload):
+    """`sym` is the value (payload=True: the Some/Ok/Continue payload) of `X.iter().position(..)` / `rposition`, possibly through
+    `ok_or(..)`, `?`, `unwrap`, `expect`: return X, else None.  Such an index is < X.len()."""
+    for _ in range(12):
+        sym = _strip_refs(sym)
+        if payload and sym[0] == "field" and str(sym[2]) == "0" and sym[1][0] == "downcast" and str(sym[1][2]) in ("Some", "Ok", "Continue"):
+            sym, payload = sym[1][1], False
+            continue
+        if sym[0] != "call":
+            return None
+        if _POS_RX.search(sym[1]):
+            if payload or not sym[2]:
+                return None
+            it = _strip_refs(sym[2][0])
+            if it[0] == "call" and panic.strip_generics(it[1]) in ("core::slice::iter", "core::slice::iter_mut") and len(it[2]) == 1:
+                return _strip_refs(it[2][0])
+            return None
+        nm = panic.strip_generics(sym[1])
+        if _WRAP_RX.search(nm) and sym[2]:
+            if payload and nm.rsplit("::", 1)[-1] in ("unwrap", "expect"):
+                payload = False
+            elif payload:
+                return None
+            sym = sym[2][0]
+            continue
+        return None
+    return None
+
+
+def _fixed_slice(fn, sym):
+    """place chain of `sym` if it is rooted in a parameter that is never reassigned and has a slice/array reference type
+    (the length of a `&[T]` / `&mut [T]` / `&[T; N]` cannot change)."""
+    pc = guards.place_chain(sym)
+    if pc is None or pc[0][0] != "param" or pc[1]:
+        return None
+    l = pc[0][1]
+    ty = fn.local_ty(l) or ""
+    if not re.match(r"^&(?:'\w+ )?(?:mut )?\[", ty) or not fn.is_stable_param(l):
+        return None
+    return pc
+
+
+def _position_index_idiom(site):
+    """BoundsCheck `a[i]` where i is the result of `a.iter().position(..)` on the same fixed-length slice: directly, or as the
+    payload a closure receives from `Option::map/and_then/..` applied to that result (a captured by the closure)."""
+    fn, t = site.fn, site.term
+    lsym, isym = (fn.sym_operand(o) for o in t["ops"])
+    base = panic._len_of(lsym)
+    if base is None:
+        return None
+    src = _position_source(isym, True)
+    if src is not None:
+        pb, ps = _fixed_slice(fn, base), _fixed_slice(fn, src)
+        if pb is not None and pb == ps:
+            return "index is the result of `.iter().position(..)` on the same fixed-length slice"
+        return None
+    isym = _strip_refs(isym)
+    prog = _CTX.get("prog")
+    if fn.kind != "Closure" or isym[0] != "param" or isym[1] != 2 or prog is None:
+        return None
+    b = _strip_refs(base)
+    if b[0] != "field" or _strip_refs(b[1])[0] != "param" or _strip_refs(b[1])[1] != 1:
+        return None                     # base must be a capture: field of the closure environment (parameter 1)
+    cap = int(b[2]) if str(b[2]).isdigit() else None
+    parent = prog.fns.get(fn.b.get("parent") or "")
+    if parent is None or cap is None:
+        return None
+    uses = []
+    for bi, ct in parent.calls():
+        for a in ct.get("args", []):
+            sy = parent.sym_operand(a)
+            if sy[0] == "agg" and sy[1] == "closure" and sy[2] == fn.path:
+                uses.append((ct, sy))
+    if len(uses) != 1:
+        return None
+    ct, agg = uses[0]
+    if not _PAYLOAD_COMBINATORS.search(panic.strip_generics(ct.get("f") or "")) or cap >= len(agg[3]):
+        return None
+    src = _position_source(parent.sym_operand(ct["args"][0]), False)
+    if src is None:
+        return None
+    pb, ps = _fixed_slice(parent, _strip_refs(agg[3][cap])), _fixed_slice(parent, src)
+    if pb is not None and pb == ps:
+        return ("index is the payload of `%s` applied to `.iter().position(..)` on the same fixed-length slice, which the closure captures"
+                % short_path(panic.strip_generics(ct.get("f"))))
+    return None
+
+
 def _cfg_idiom(site, args):
     """Guards verified on the CFG for call-shaped sites the shared engine only judges in their Assert form."""
     k = site.kind
@@ -360,6 +457,8 @@ def local_idiom(site):
         if v is not None and v > 0:
             return "chunk size is the constant %d" % v
         return None
+    if k == "BoundsCheck":
+        return _position_index_idiom(site)
     if k == "Overflow:Add" and panic._operand_ty(fn, t["ops"][0]) == "usize":
         a, b = (_len_terms(fn.sym_operand(o)) for o in t["ops"])
         if a is not None and b is not None and 1 <= a + b <= 16:
@@ -545,6 +644,133 @@ def derive_entry(table, s):
     return None
 
 
+# ------------------------------------------------------------------ call graph: class-hierarchy expansion restricted by the receiver type
+
+_PRIM_HEADS = set(PRIMS) | {"bool", "char", "str", "f32", "f64", "()", "!"}
+
+
+def _type_head(ty):
+    """Head constructor of a type string as the facts print it (`&` prefixes kept, generic arguments dropped), or None when the
+    type is not concrete at its head: a type parameter, an associated-type projection, `dyn`/`impl` types, unknown syntax."""
+    if not ty:
+        return None
+    ty = ty.strip()
+    pre = ""
+    while True:
+        m = re.match(r"^&(?:'\w+ )?(?:mut )?(.*)$", ty) or re.match(r"^\*(?:const|mut) (.*)$", ty)
+        if not m:
+            break
+        pre += "&"
+        ty = m.group(1).strip()
+    if ty in _PRIM_HEADS:
+        return pre + ty
+    if ty.startswith("("):
+        return pre + "(tuple)"
+    if ty.startswith("["):
+        return pre + "[slice]"
+    m = re.match(r"^([a-z_][A-Za-z0-9_]*)((?:::[A-Za-z_][A-Za-z0-9_]*)+)(<.*>)?$", ty)
+    if m:
+        # crate + last segment: tolerant of re-export spellings of the same item
+        return pre + m.group(1) + "::" + m.group(2).rsplit("::", 1)[-1]
+    return None
+
+
+def receiver_compatible(t, g):
+    """May the unresolved trait-method call `t` (`<S as Tr<..>>::m`, S = first type argument) dispatch to the workspace impl `g`?
+    Only impls whose Self type has the same head constructor as S can be selected; when S (or the impl's Self type) is not
+    concrete at its head - a type parameter, a projection, a blanket impl - the edge is kept."""
+    targs = t.get("targs") or []
+    if not targs:
+        return True
+    hc = _type_head(targs[0])
+    if hc is None:
+        return True
+    hi = _type_head(g.b.get("impl_self"))
+    return hi is None or hi == hc
+
+
+def refined_closure(P, entries):
+    """pv.program.closure_of with the receiver-type restriction on class-hierarchy edges (resolved calls, closure children and
+    type-argument driven call-backs of external generic functions are unchanged)."""
+    seen = {}
+    work = []
+    dropped = 0
+    for e in entries:
+        if e.path not in seen:
+            seen[e.path] = (e, None)
+            work.append(e)
+    while work:
+        f = work.pop()
+        nxt = []
+        for g, t, bi in P.callees(f):
+            if t.get("f") is None and t.get("g") and t.get("trait") and not receiver_compatible(t, g):
+                dropped += 1
+                continue
+            nxt.append(g)
+        for g in nxt + P.closure_children(f):
+            if g.path not in seen:
+                seen[g.path] = (g, f.path)
+                work.append(g)
+    return seen, dropped
+
+
+def census(P, entries):
+    closure, dropped = refined_closure(P, entries)
+    sites = []
+    skipped = {"unjudged_asserts": 0, "fmt_expansion": 0}
+    for path, (fn, parent) in closure.items():
+        ss, sk = panic.enumerate_sites(fn)
+        sites.extend(ss)
+        for k, v in sk.items():
+            skipped[k] += v
+    return closure, sites, skipped, dropped
+
+
+def _root_path(fn):
+    r = fn.b.get("root")
+    if r:
+        return r
+    return re.sub(r"(::\{closure#\d+\})+$", "", fn.path)
+
+
+def closure_sites_by_root_entry(res, P, table, sites):
+    """A reviewed table entry of function F also covers the same construct (kind, signature) when a refactor moved it into a
+    closure of F (`for` loop -> iterator chain): same reason, same checked guard, and never more sites than the entry's `max`
+    counting those still in F itself.  Returns (sites left for the engine, number discharged here)."""
+    by_fn = {}
+    for e in table.get("entries", []):
+        by_fn.setdefault(e["fn"], []).append(e)
+    left = {}
+    for e in table.get("entries", []):
+        own = sum(1 for s in sites if s.fn.path == e["fn"] and s.kind == e["kind"] and e.get("sig", "*") in ("*", s.sig)
+                  and s.ordinal < e.get("max", 1))
+        left[id(e)] = e.get("max", 1) - own
+    out, n = [], 0
+    for s in sites:
+        ent = None
+        if s.fn.kind == "Closure" and s.fn.path not in by_fn:
+            for e in by_fn.get(_root_path(s.fn), []):
+                if e["kind"] == s.kind and e.get("sig", "*") in ("*", s.sig) and left[id(e)] > 0:
+                    ent = e
+                    break
+        if ent is None:
+            out.append(s)
+            continue
+        left[id(ent)] -= 1
+        n += 1
+        g = ent.get("guard")
+        if g:
+            ok, msg = panic.verify_guard(P, s, g)
+            if not ok:
+                res.violation(s.key(), "guard of reviewed panic site no longer holds: %s — %s(%s); reviewed reason was: %s" % (
+                    msg, s.kind, s.detail, ent["reason"]), where=s.where(), rule="R-PANIC/guard")
+                continue
+            res.ok(s.key(), "R-PANIC/table(closure of %s)+guard" % short_path(ent["fn"]), ent["reason"] + " [" + msg + "]")
+        else:
+            res.ok(s.key(), "R-PANIC/table(closure of %s)" % short_path(ent["fn"]), ent["reason"])
+    return out, n
+
+
 # ------------------------------------------------------------------ run
 
 def run(tier):
@@ -552,7 +778,8 @@ def run(tier):
     table = panic.load_table("panic_C33.json")
     P = Program(crates=list(CRATES), config="default")
     entries = [P.one(rx) for rx in ENTRIES]
-    closure, sites, skipped = panic.census(P, entries)
+    closure, sites, skipped, dropped = census(P, entries)
+    res.count("cha_edges_dropped_by_receiver_type", dropped)
     _CTX["closure"] = closure
     _CTX["prog"] = P
     extra = []
@@ -596,6 +823,8 @@ def run(tier):
         rest.append(s)
     res.count("sites_idiom_discharged", n_idiom)
     res.count("sites_derive_pattern_discharged", n_derive)
+    rest, n_cl = closure_sites_by_root_entry(res, P, table, rest)
+    res.count("sites_table_discharged_in_closure_of_reviewed_fn", n_cl)
     panic.check_sites(res, P, closure, rest, table, "C33")
     res.analysed["sites_total"] = len(sites)
     for s in [x for x in sites if x.fn.crate == "pallas_validate"][:10]:
@@ -611,8 +840,8 @@ def run(tier):
         "Environment::block_slot is a realistic chain slot (< 2^63); values of CertState are not adversarial beyond what the sum check covers",
         "transactions and UTxO entries were produced by the pallas decoders (PositiveCoin/NonZeroInt non-zero, Constr tags restricted); "
         "stack exhaustion on deeply nested data is not a panic and is not covered",
-        "the closure follows resolved calls plus class-hierarchy expansion of unresolved trait calls inside the six crates; pallas_math and "
-        "other workspace crates are not reached",
+        "the closure follows resolved calls plus class-hierarchy expansion of unresolved trait calls inside the six crates (an unresolved "
+        "`<S as Trait>::m` with a concrete receiver head S only reaches impls for that head); pallas_math and other workspace crates are not reached",
     ]
     return finish(res,
                   explanation="Decides the structural clause of C33: every panic-capable construct reachable from the seven phase-1 entry points "
